@@ -38,6 +38,8 @@ enum Pl {
     Absent,
     Partial,
     AsValue,
+    /// only `p_other` (what a locale with a single plural category writes): a lone suffixed key stays `p_other`
+    OtherOnly,
 }
 #[derive(Clone, Copy, PartialEq, Eq, Debug)]
 enum Surplus {
@@ -47,6 +49,8 @@ enum Surplus {
     Plural,
     InsideGroup,
     SwapDefaultValue, // default's value `b` is a group here
+    /// a key that merely ends in `_other`
+    LoneOther,
 }
 
 #[derive(Clone, Copy, Debug)]
@@ -68,8 +72,8 @@ fn all_patterns(full: bool) -> Vec<Pattern> {
             }
         }
     }
-    let pls = [Pl::Forms, Pl::Null, Pl::Absent, Pl::Partial, Pl::AsValue];
-    let ss = [Surplus::None, Surplus::Value, Surplus::Group, Surplus::Plural, Surplus::InsideGroup, Surplus::SwapDefaultValue];
+    let pls = [Pl::Forms, Pl::Null, Pl::Absent, Pl::Partial, Pl::AsValue, Pl::OtherOnly];
+    let ss = [Surplus::None, Surplus::Value, Surplus::Group, Surplus::Plural, Surplus::InsideGroup, Surplus::SwapDefaultValue, Surplus::LoneOther];
     let mut out = vec![];
     for a in PS {
         for g in &gs {
@@ -95,6 +99,8 @@ fn default_entries(loc: &str) -> Vec<(String, Val)> {
         ("g".into(), Val::Sub(vec![("x".into(), t("g.x")), ("y".into(), t("g.y")), ("h".into(), Val::Sub(vec![("z".into(), t("g.h.z"))]))])),
         ("p_one".into(), s(vec![text(&format!("[{loc}.p.one]")), var("count")])),
         ("p_other".into(), s(vec![text(&format!("[{loc}.p.other]")), var("count")])),
+        // an ordinary key whose name happens to end in `_other`
+        ("kind_other".into(), t("kind_other")),
     ]
 }
 
@@ -145,6 +151,7 @@ fn entries_for(loc: &str, pat: &Pattern) -> Vec<(String, Val)> {
         Pl::Absent => {}
         Pl::Partial => e.push(("p_one".into(), s(vec![text(&format!("[{loc}.p.one-only]")), var("count")]))),
         Pl::AsValue => e.push(("p".into(), s(vec![text(&format!("[{loc}.p-plain]")), var("count")]))),
+        Pl::OtherOnly => e.push(("p_other".into(), s(vec![text(&format!("[{loc}.p.other-only]")), var("count")]))),
     }
     match pat.s {
         Surplus::Value => e.push(("s".into(), t("s-surplus"))),
@@ -153,6 +160,7 @@ fn entries_for(loc: &str, pat: &Pattern) -> Vec<(String, Val)> {
             e.push(("sp_one".into(), t("sp.one")));
             e.push(("sp_other".into(), t("sp.other")));
         }
+        Surplus::LoneOther => e.push(("sort_other".into(), t("sort_other-surplus"))),
         _ => {}
     }
     e
@@ -259,7 +267,7 @@ pub fn run(tier: Tier) -> i32 {
         rep.sample(json!({"project": s}));
     }
     let mut cov = serde_json::Map::new();
-    cov.insert("rule".into(), json!("default locale en holds {a, b, g.x, g.y, g.h.z, p_one/p_other}; per non-default locale every combination of: a in {value,null,absent}; g in {absent, null, value (swap), group with x,y in {value,null,absent} and h in {absent,null,value (swap), group with z in 3 states}}; p in {forms, null, absent, only p_one, plain value}; surplus in {none, value, group, plural pair, inside g, default's value b as a group}; x inherits {none, explicit to default} x {no namespaces, two namespaces with different patterns}; thorough adds a third locale (reduced pattern set) with every inherits map; oracle: exact multiset of MissingKey/SurplusKey/UnusedForm diagnostics, accessible key set == default's keys in every locale, SubKeyMissmatch for swaps, and every key rendered in every locale"));
+    cov.insert("rule".into(), json!("default locale en holds {a, b, g.x, g.y, g.h.z, p_one/p_other}; per non-default locale every combination of: a in {value,null,absent}; g in {absent, null, value (swap), group with x,y in {value,null,absent} and h in {absent,null,value (swap), group with z in 3 states}}; p in {forms, null, absent, only p_one, plain value, only p_other}; surplus in {none, value, group, plural pair, inside g, default's value b as a group, a key ending in _other}; the default locale also holds a plain key `kind_other`; x inherits {none, explicit to default} x {no namespaces, two namespaces with different patterns}; thorough adds a third locale (reduced pattern set) with every inherits map; oracle: exact multiset of MissingKey/SurplusKey/UnusedForm diagnostics, accessible key set == default's keys in every locale, SubKeyMissmatch for swaps, and every key rendered in every locale"));
     cov.insert("exhaustive".into(), json!(true));
     cov.insert("outcome_classes".into(), json!(*classes.lock().unwrap()));
     cov.insert("suppress_key_warnings_build".into(), json!(cfg!(feature = "suppress")));
